@@ -103,8 +103,8 @@ def non_linear_correlations(df, model, draws=5, minmax=False):
             mini = cor.copy()
             maxi = cor.copy()
     else:
-        cor = numpy.corrcoef(df, rowvar=False)
-        cor[:, :] = 0.0
+        # numpy.corrcoef returns a scalar for a single column
+        cor = numpy.zeros((df.shape[1], df.shape[1]))
         iloc = False
         if minmax:
             mini = cor.copy()
